@@ -14,12 +14,14 @@ import (
 	"go.nanomsg.org/mangos/v3/protocol/sub"
 	"go.nanomsg.org/mangos/v3/vh/vt"
 	_ "go.nanomsg.org/mangos/v3/transport/tcp"
+	"go.nanomsg.org/mangos/v3/vh/c14"
 	"go.nanomsg.org/mangos/v3/vh/c18"
 	"go.nanomsg.org/mangos/v3/vh/kinds"
 	"go.nanomsg.org/mangos/v3/vh/kit"
 	_ "go.nanomsg.org/mangos/v3/vh/vipc"
 	"go.nanomsg.org/mangos/v3/vh/vnet"
 	"go.nanomsg.org/mangos/v3/vz/vexplore"
+	"go.nanomsg.org/mangos/v3/vz/vsched"
 )
 
 func init() {
@@ -29,6 +31,10 @@ func init() {
 				NeedCounters: []string{"limit-enforced", "in-limit-delivered", "limit-lifted", "unrelated-options-in-the-map"}},
 			{Name: "best-effort-beside-a-send-deadline", Mode: "enum", Reset: kit.ResetGlobals, Body: c18.BestEffortModes,
 				NeedCounters: []string{"best-effort-returned-at-once"}},
+			{Name: "reconnect-options-in-effect-hist-D4", Mode: "hist", Reset: kit.ResetGlobals, Cfg: vsched.Config{RandFree: true}, Body: func() { c14.Hist(4, kit.ChooseFree(2) == 1) },
+				NeedCounters: []string{"redial-after-refusal", "delay-capped", "delay-grew"}},
+			{Name: "readqlen-changed-while-a-connection-waits-for-room", Mode: "enum", Reset: kit.ResetGlobals, Body: qlenParked,
+				NeedCounters: []string{"resized-with-a-message-waiting-for-room", "received-after-resize"}},
 			{Name: "socket-options-reach-existing-dialers", Mode: "enum", Reset: kit.ResetGlobals, Body: sockOptsExisting,
 				NeedCounters: []string{"passed-on-to-existing-dialer"}},
 			{Name: "surveyor-readqlen-per-context", Mode: "enum", Reset: kit.ResetGlobals, Body: surveyorQLen,
@@ -243,6 +249,69 @@ var _ = fmt.Sprint
 // one reconfiguration follows (nothing, Unsubscribe "b", Subscribe "c", the same length again,
 // Unsubscribe + Subscribe "b"), then q+3 further messages arrive and nobody receives meanwhile:
 // every call returns, GetOption still answers q, and exactly the newest q messages are there.
+// qlenParked: the receive queue (one message long) is full and further messages from the same
+// connection are waiting for room when ReadQLen is set again (same value, 2 or 4): the call
+// returns, the connection is still there - changing a queue length never disconnects a peer - and
+// once the application has taken what was queued, a message the peer sends next is received.
+func qlenParked() {
+	var ks []*kinds.Kind
+	for _, k := range kinds.All {
+		if k.CanRecv {
+			ks = append(ks, k)
+		}
+	}
+	k := ks[kit.ChooseFree(len(ks))]
+	nl := []int{4, 1, 2}[kit.ChooseFree(3)]
+	x := k.Open("c19p", false, false)
+	x.Quiet()
+	if err := x.S.SetOption(mangos.OptionReadQLen, 1); err != nil {
+		if err == mangos.ErrBadOption {
+			return
+		}
+		kit.Failf("qlen-refused", "%s: SetOption(ReadQLen,1): %s", k.Name, kit.ErrName(err))
+	}
+	detached := 0
+	x.S.SetPipeEventHook(func(ev mangos.PipeEvent, _ mangos.Pipe) {
+		if ev == mangos.PipeEventDetached {
+			detached++
+		}
+	})
+	x.P = x.EP.Connect()
+	kit.Quiesce()
+	x.PrepRecv()
+	for i := 0; i < 3; i++ {
+		x.Feed(fmt.Sprintf("queued-%d", i))
+		kit.Quiesce()
+	}
+	c := kit.Start("SetOption", func() (interface{}, error) { return nil, x.S.SetOption(mangos.OptionReadQLen, nl) })
+	kit.Quiesce()
+	if !c.Done() || c.Err != nil {
+		kit.Failf("qlen-reconf-hang:"+k.Name+":READQ-LEN", "%s: ReadQLen 1, three messages arrived (none received), SetOption(ReadQLen,%d): done=%v %s", k.Name, nl, c.Done(), kit.ErrName(c.Err))
+	}
+	if detached > 0 || x.P.ClosedByMangos() {
+		kit.Failf("qlen-detach:"+k.Name+":READQ-LEN", "%s: ReadQLen 1, three messages arrived on one connection (none received yet), then SetOption(ReadQLen,%d): the connection was closed (Detached fired %d time(s))", k.Name, nl, detached)
+	}
+	kit.Count("resized-with-a-message-waiting-for-room")
+	if k.Name != "req" && k.Name != "surveyor" {
+		for i := 0; i < 5; i++ {
+			d := kit.Start("drain", func() (interface{}, error) { return x.Recv() })
+			kit.Quiesce()
+			if !d.Done() {
+				// nothing more queued: this Recv takes the next message
+				x.Feed("after-the-resize")
+				kit.Quiesce()
+				if !d.Done() || d.Err != nil || d.Val.(string) != "after-the-resize" {
+					kit.Failf("qlen-stuck:"+k.Name+":READQ-LEN", "%s: after SetOption(ReadQLen,%d) with messages waiting and the queue drained, the peer sent one more message: Recv done=%v %s %q", k.Name, nl, d.Done(), kit.ErrName(d.Err), d.Val)
+				}
+				kit.Count("received-after-resize")
+				break
+			}
+		}
+	}
+	kit.Observe("%s %d", k.Name, nl)
+	kit.Must("Close", func() { _ = x.S.Close() })
+}
+
 func SubQLen() { subQLen() }
 
 func subQLen() {
